@@ -29,8 +29,30 @@ type vfKey struct {
 
 type vfCmd struct {
 	name string
-	args [][]byte
+	args [][]byte      // rendered arguments (nil entries are rendered lazily from raw)
+	raw  []interface{} // arguments as passed by the tool
 	db   int
+}
+
+// num returns argument i as a number without rendering it to text.
+func (c *vfCmd) num(i int) (int64, bool) {
+	if i < len(c.raw) {
+		switch x := c.raw[i].(type) {
+		case int:
+			return int64(x), true
+		case int64:
+			return x, true
+		case int32:
+			return int64(x), true
+		case uint32:
+			return int64(x), true
+		case uint64:
+			return int64(x), true
+		case uint8:
+			return int64(x), true
+		}
+	}
+	return vfAtoi(c.args[i])
 }
 
 type vfRedis struct {
@@ -126,11 +148,16 @@ func vfAtoi(b []byte) (int64, bool) {
 // apply executes one command against the keyspace and returns its reply.
 func (r *vfRedis) apply(c vfCmd) (interface{}, error) {
 	a := c.args
+	for i := range a {
+		if a[i] == nil && i < len(c.raw) && c.name != "restore" && c.name != "pexpire" && c.name != "select" {
+			a[i] = vfArg(c.raw[i])
+		}
+	}
 	switch c.name {
 	case "ping":
 		return "PONG", nil
 	case "select":
-		n, ok := vfAtoi(a[0])
+		n, ok := c.num(0)
 		if !ok || n < 0 {
 			return nil, errors.New("ERR invalid DB index")
 		}
@@ -155,16 +182,19 @@ func (r *vfRedis) apply(c vfCmd) (interface{}, error) {
 		var idle, freq int64
 		hasIdle, hasFreq := false, false
 		for i := 3; i < len(a); i++ {
+			if a[i] == nil {
+				return nil, errors.New("ERR syntax error")
+			}
 			switch strings.ToLower(string(a[i])) {
 			case "replace":
 				replace = true
 			case "idletime":
 				i++
-				idle, _ = vfAtoi(a[i])
+				idle, _ = c.num(i)
 				hasIdle = true
 			case "freq":
 				i++
-				freq, _ = vfAtoi(a[i])
+				freq, _ = c.num(i)
 				hasFreq = true
 			default:
 				return nil, errors.New("ERR syntax error")
@@ -182,7 +212,7 @@ func (r *vfRedis) apply(c vfCmd) (interface{}, error) {
 			}
 			r.del(r.cur, a[0])
 		}
-		ttl, ok := vfAtoi(a[1])
+		ttl, ok := c.num(1)
 		if !ok || ttl < 0 {
 			return nil, errors.New("ERR Invalid TTL value, must be >= 0")
 		}
@@ -287,7 +317,7 @@ func (r *vfRedis) apply(c vfCmd) (interface{}, error) {
 		if k == nil {
 			return int64(0), nil
 		}
-		n, _ := vfAtoi(a[1])
+		n, _ := c.num(1)
 		if c.name == "expire" {
 			n *= 1000
 		}
@@ -360,9 +390,15 @@ func (r *vfRedis) Send(cmd string, args ...interface{}) error {
 	if r.failSend != 0 && r.nsend == r.failSend {
 		return errors.New("vf: connection lost")
 	}
-	c := vfCmd{name: strings.ToLower(cmd)}
+	c := vfCmd{name: strings.ToLower(cmd), raw: args}
 	for _, a := range args {
-		c.args = append(c.args, vfArg(a))
+		switch a.(type) {
+		case int, int64, int32, uint32, uint64, uint8:
+			// numbers are kept numeric (rendered only if a command needs the text)
+			c.args = append(c.args, nil)
+		default:
+			c.args = append(c.args, vfArg(a))
+		}
 	}
 	c.db = r.cur
 	r.trace = append(r.trace, c)
